@@ -329,15 +329,32 @@ def compare(pid, stage, ops, impl, model):
     diverged = False
     cur_session = None
     import re as _re
+    # C03 also reads each session as a whole: the same events over the session, delivered in another order
+    # (a change that moves an event from one notification to a later one differs line by line as a missing
+    # and an extra event, which are C01's and C02's readings)
+    sess_i, sess_m, sess_first, sess_flagged = [], [], None, False
+
+    def close_session():
+        nonlocal sess_i, sess_m, sess_first, sess_flagged
+        if pid == "C03" and sess_first is not None and not sess_flagged and sorted(sess_i) == sorted(sess_m) and sess_i != sess_m:
+            out.append(dict(sess_first, whole_session_order=True))
+        sess_i, sess_m, sess_first, sess_flagged = [], [], None, False
+
     for o, a, b in zip(ops, impl, model):
         if not o:
             continue
         toks = o.split(" ", 2)
         sessioned = sessioned_all or (session_ops is not None and len(toks) > 1 and toks[1] in session_ops)
         if sessioned and " reset" in o[:16]:
+            close_session()
             diverged = False
             m = _re.search(r"session=(\d+)", o)
             cur_session = int(m.group(1)) if m else None
+        if pid == "C03" and sessioned and len(toks) > 1 and toks[1] == "raw" and "BARRIER-TIMEOUT" not in a:
+            sess_i += [(e[0], e[1]) for e in _events(_fields(a))]
+            sess_m += [(e[0], e[1]) for e in _events(_fields(b))]
+            if a != b and sess_first is None:
+                sess_first = {"op": o, "impl": a, "model": b, "session_op": True, "session": cur_session, "stage": stage["name"]}
         if a == b or diverged:
             continue
         if sessioned:
@@ -347,6 +364,7 @@ def compare(pid, stage, ops, impl, model):
             # when an event is later reported through it). One report per session.
             if differs(pid, a, b):
                 diverged = True
+                sess_flagged = True
                 out.append({"op": o, "impl": a, "model": b, "session_op": True, "session": cur_session, "stage": stage["name"]})
             else:
                 other += 1
@@ -356,6 +374,7 @@ def compare(pid, stage, ops, impl, model):
             out.append({"op": o, "impl": a, "model": b})
         if len(out) >= 25:
             break
+    close_session()
     return out, other
 
 
